@@ -96,6 +96,25 @@ func runC18(w *mon.W) {
 			r := w.Rand(id)
 			t1, s1 := randomFullTable(tid, r)
 			t2, s2 := randomFullTable(tid, r)
+			if k%8 == 7 {
+				// tables of whole genomes: the same proportions with counts in the hundreds of thousands and millions
+				for ti, t := range []*codon.Table{&t1, &t2} {
+					f := []int{700, 5000, 20000}[r.Intn(3)] + r.Intn(300)
+					for ai := range t.AminoAcids {
+						for ci := range t.AminoAcids[ai].Codons {
+							if wt := t.AminoAcids[ai].Codons[ci].Weight; wt > 0 {
+								t.AminoAcids[ai].Codons[ci].Weight = wt*f + r.Intn(f)
+							}
+						}
+					}
+					if ti == 0 {
+						s1 = snapshot(t1)
+					} else {
+						s2 = snapshot(t2)
+					}
+				}
+				w.Add("pairs_with_genome_sized_counts", 1)
+			}
 			rep := map[string]any{"table": tid, "first": s1.AA, "second": s2.AA}
 			w.Begin(id, fmt.Sprintf("table %d first=%v second=%v", tid, s1.AA, s2.AA))
 
@@ -184,7 +203,11 @@ func runC18(w *mon.W) {
 			}
 			nc := w.Pick(12, 20)
 			r.Shuffle(len(cuts), func(i, j int) { cuts[i], cuts[j] = cuts[j], cuts[i] })
-			cuts = append([]float64{0, 1, -1e-9, 1 + 1e-9}, cuts...)
+			// what arithmetic on percentages leaves behind next to the ends of the range: 0.3-0.2-0.1 < 0, the
+			// neighbours of 0 and 1 among the floating-point numbers
+			tiny := []float64{0.3 - 0.2 - 0.1, -5e-17, math.Nextafter(0, -1), math.Nextafter(1, 2), 1 + 4e-16, -1e-300}
+			cuts = append([]float64{0, 1, -1e-9, 1 + 1e-9, tiny[r.Intn(len(tiny))], tiny[r.Intn(len(tiny))]}, cuts...)
+			nc += 2
 			if len(cuts) > nc {
 				cuts = cuts[:nc]
 			}
